@@ -92,7 +92,9 @@ func (p Track2Unpacker) Unpack(packedFieldValue []byte, spec *Spec) ([]byte, int
 
 	// if valueLength is odd we need to make it even to adjust for
 	// the padding in our Packer
-	if valueLength%2 != 0 {
+	// mirror Track2Packer: the value was extended to an even length only if
+	// the spec has a padder
+	if spec.Pad != nil && valueLength%2 != 0 {
 		valueLength++
 	}
 
